@@ -8,11 +8,11 @@ from harness.lib import S, OS, B, L, P
 
 ID = "C13"
 COQ_PROP = "props/C13.v"
-CORR_REQUIRE = ["Crit", "gen.TermsTable", "Terms", "TermsCorr", "gen.C13Table", "Alias", "AliasCorr"]
+CORR_REQUIRE = ["Crit", "gen.TermsTable", "Terms", "TermsCorr", "Page", "gen.QueryTable", "Query", "gen.C13Table", "Alias", "AliasCorr"]
 CORR_CHECK = "check_c13"
 CORR_SHOW = "show_c13"
 GEN_FILES = ["gen/C13Table.v"]
-DEPENDS_ON_EXTRACT = ["C02"]
+SHARED_EXTRACT = ["terms", "query"]      # gen/TermsTable.v, gen/QueryTable.v (shared expression / statement models)
 SHARD = 120
 
 SENT = "zqS"          # sentinel alias used by the extraction
@@ -294,10 +294,13 @@ RULE = ("(a) terms of the shared `terms` family with aliases at every level (p=0
         "analytic, CASE, sub-query, comparisons, and the alias-ignoring kinds), the SAME objects re-used as/inside the join "
         "criterion, WHERE, HAVING, function arguments and larger expressions, GROUP BY / ORDER BY elements that are the selected "
         "object, a different object with a selected name, or an un-selected name; (c) INSERT ... VALUES rows; (d) a malformed "
-        "stream (empty criteria, CASE without WHEN, empty alias). Alias names are sentinels (zq..) so the oracle can count "
+        "stream (empty criteria, CASE without WHEN, empty alias); (e) nested statements of the shared queries family: aliased items "
+        "with GROUP BY / ORDER BY at every level, sub-queries of another class in FROM / JOIN / select list / IN / EXISTS, set "
+        "operations with branch-specific aliases and a chain ORDER BY (model: coq/Query.v). Alias names are sentinels (zq..) so the oracle can count "
         "them per clause. Non-trivial = some aliased object sits in a non-select position or inside another expression, or a "
         "GROUP BY/ORDER BY element is aliased; distinct by structural hash.")
 TRUSTED = [
+    "coq/Query.v + harness/queries_family.py (shared statement model for the nested family; its class table gen/QueryTable.v is regenerated on every run)",
     "coq/Terms.v + harness/terms_family.py (shared expression model and its spec<->pypika<->Gallina mapping, validated by C02's correspondence)",
     "harness/props/C13.py builds the same statement on pypika and as a Gallina value; identical sub-specs become ONE Python object",
     "the specification side of Alias.v section 4 (alias quote / AS keyword / GROUP BY-alias support per class), written from the dialects' manuals",
@@ -519,6 +522,9 @@ def run_impl(case):
     try:
         if case["kind"] == "term":
             text = bld(case["t"], {}).get_sql(**tf.ctx_kwargs(case["c"]))
+        elif case["kind"] == "q":
+            from harness import queries_family as qf
+            text = str(qf.build_query(case["q"]))
         else:
             text = str(build_query(case, {}))
     except Exception as e:  # noqa
@@ -535,6 +541,9 @@ def to_coq(case, outcome):
             return "(CTerm %s %s %s)" % (tf.ctx_coq(case["c"]), coq_term(case["t"]), S(text))
         if case["kind"] == "ins":
             return "(CIns %s %s %s)" % (CLS_COQ[case["cls"]], L([coq_term(x) for x in case["row"]]), S(text))
+        if case["kind"] == "q":
+            from harness import queries_family as qf
+            return "(CQ %s %s)" % (qf.coq_query(case["q"]), S(text))
         o = lambda x: "None" if x is None else "(Some %s)" % coq_term(x)   # noqa: E731
         order = L(["(%s, %s)" % (coq_term(x), "None" if d is None else "(Some %s)" % ("DAsc" if d == "asc" else "DDesc"))
                    for x, d in case.get("order") or []])
@@ -675,11 +684,13 @@ def ignores_with_alias(obj, name):
         return False
 
 
-def judge_element(spec, seg, role, conv, memo, selected_names, allowed_ref, select_defs):
+def judge_element(spec, seg, role, conv, memo, selected_names, allowed_ref, select_defs, undefined_culprit=None):
     """role: 'select' | 'non-select' (where/having/on) | 'values' | 'groupby' | 'orderby'
-    conv = (quote, as_keyword) of the class / context.  Returns violations."""
+    conv = (quote, as_keyword) of the class / context, or None: lexical form not judged.
+    allowed_ref: True = a selected name must be referenced, False = must not, None = either is accepted.
+    Returns violations."""
     out = []
-    q, askw = conv
+    q, askw = conv if conv is not None else ("", False)
     top_alias = alias_of(spec)
     sentinel = top_alias if (top_alias and SENT_RE.fullmatch(top_alias)) else None
 
@@ -698,7 +709,7 @@ def judge_element(spec, seg, role, conv, memo, selected_names, allowed_ref, sele
             viol(top_cls, "select", "alias-missing", "selected object aliased %s renders without its alias" % sentinel)
         elif not tail:
             viol(top_cls, "select", "alias-missing", "alias %s is not at the end of its select item" % sentinel)
-        elif not seg.endswith(suffix) or (not askw and tail[0][3]):
+        elif conv is not None and (not seg.endswith(suffix) or (not askw and tail[0][3])):
             viol(top_cls, "select", "alias-unquoted",
                  "alias %s is not written by the class's convention %r" % (sentinel, suffix))
         if len(occ) > 1 and not any(alias_of(n) == sentinel for n, p in nodes(spec) if p is not None):
@@ -707,22 +718,23 @@ def judge_element(spec, seg, role, conv, memo, selected_names, allowed_ref, sele
         ref = q + sentinel + q
         occ = occurrences(seg, sentinel)
         is_ref = len(occ) == 1 and occ[0][0] == 0 and occ[0][1] == len(seg)
-        if sentinel in selected_names and allowed_ref:
+        may = sentinel in selected_names and allowed_ref is not False
+        if may and (allowed_ref is True or is_ref):
             expect_own = 1
-            if seg == ref:
+            if seg == ref or (conv is None and is_ref):
                 if not select_defs.get(sentinel):
                     viol(select_defs.get("#cls:" + sentinel, top_cls), role, "alias-ref-undefined",
                          "%s references %s, which the rendered select list does not define" % (role, ref))
             elif is_ref:
-                viol(top_cls, role, "alias-unquoted", "reference to %s is not written as %r" % (sentinel, ref))
+                viol(undefined_culprit or top_cls, role, "alias-unquoted", "reference to %s is not written as %r" % (sentinel, ref))
             else:
                 viol(top_cls, role, "alias-missing", "element aliased %s (selected, allowed) is not a reference" % sentinel)
                 expect_own = 0
-        elif is_ref:
+        elif is_ref and not may:
             expect_own = 1
-            viol(top_cls, role, "alias-ref-undefined",
-                 "%s references %s although %s" % (role, sentinel, "the class does not allow it" if sentinel in selected_names
-                                                   else "no select item has that name"))
+            viol(undefined_culprit or top_cls, role, "alias-ref-undefined",
+                 "%s references %s although %s" % (role, sentinel, "the dialect does not allow it" if sentinel in selected_names
+                                                   else "no select item of this statement has that name"))
     # every other occurrence of an alias name: an object rendered its alias where none belongs
     seen = {}
     for n, parent in nodes(spec):
@@ -757,11 +769,208 @@ def judge_element(spec, seg, role, conv, memo, selected_names, allowed_ref, sele
     return out
 
 
+# ---- nested statements and set operations (specs of harness/queries_family.py) ---------------------------------
+SETOP_TEXT = {"union": "UNION", "union_all": "UNION ALL", "intersect": "INTERSECT", "except_of": "EXCEPT", "minus": "MINUS"}
+
+
+class Unreadable(Exception):
+    pass
+
+
+def paren_group(text, start=0):
+    """(open, close) of the first depth-0 parenthesis group at or after start (outside quotes)"""
+    op, depth0 = None, None
+    for i, ch, d, qd in scan(text):
+        if qd or i < start:
+            continue
+        if op is None:
+            if ch == "(" and d == 1:
+                op = i
+        elif ch == ")" and d == 1:
+            return op, i
+    raise Unreadable("no parenthesis group in %r" % text[start:start + 60])
+
+
+def strip_parens(text):
+    o, c = paren_group(text)
+    if o != 0:
+        raise Unreadable("expected '(' at the start of %r" % text[:60])
+    return text[1:c], text[c + 1:]
+
+
+def root_cls(spec):
+    return root_cls(spec["base"]) if spec["k"] == "set" else spec["cls"]
+
+
+def judge_query(spec, text, env, out):
+    """spec: queries_family statement spec ('sel' / 'set'); text: its rendering without enclosing parentheses / alias.
+    env: conv (quote, as) of the outermost class or None; group_ref: True / False / None (see judge_element)."""
+    memo = {}
+    if spec["k"] == "set":
+        ops = spec["ops"]
+        branches = [spec["base"]] + [b for _, b in ops]
+        pos, cuts = 0, []
+        for op, _ in ops:
+            kw = " " + SETOP_TEXT[op] + " "
+            i = find_top(text, kw, pos)
+            if i == -1:
+                raise Unreadable("set operator %s not found in %r" % (kw, text[:80]))
+            cuts.append((i, i + len(kw)))
+            pos = i + len(kw)
+        tail_at = find_top(text, " ORDER BY ", pos) if spec.get("orderby") else -1
+        ends = [c[0] for c in cuts] + [tail_at if tail_at != -1 else len(text)]
+        starts = [0] + [c[1] for c in cuts]
+        mixed = len({b["cls"] for b in branches if b["k"] == "sel"}) > 1
+        for b, s0, e0 in zip(branches, starts, ends):
+            bt = text[s0:e0]
+            if bt.startswith("("):
+                bt, rest = strip_parens(bt)
+                if rest.strip():
+                    raise Unreadable("text after a set-operation branch: %r" % rest)
+            if mixed:      # operands of different classes: each fills in its own defaults; judged as a statement of its own class
+                bc = root_cls(b)
+                own = env.get("top") or env["group_ref"] is True      # a root set operation hands nothing down to its operands
+                benv = {"conv": None, "group_ref": (bc not in NO_GROUP_ALIAS) if own else env["group_ref"], "top": False}
+            else:
+                benv = dict(env, top=False)
+            judge_query(b, bt, benv, out)
+        if spec.get("orderby"):
+            if tail_at == -1:
+                raise Unreadable("ORDER BY of the set operation not found")
+            parts = split_top(text[tail_at + len(" ORDER BY "):])
+            # LIMIT / OFFSET tails are not generated for this family
+            if len(parts) != len(spec["orderby"]):
+                raise Unreadable("set-operation ORDER BY has %d elements, expected %d" % (len(parts), len(spec["orderby"])))
+            base = spec["base"]
+            base_sel = [i[1] for i in base.get("selects", []) if i[0] == "t"] if base["k"] == "sel" else []
+            names = {alias_of(x) for x in base_sel if alias_of(x)}
+            defs = {a: True for a in names}        # the branch check above has judged the definitions
+            for (t, d), seg in zip(spec["orderby"], parts):
+                if d and seg.endswith(" " + d.upper()):
+                    seg = seg[:-(len(d) + 1)]
+                out += judge_element(t, seg, "orderby", None if mixed else env["conv"], memo, names, True, defs,
+                                     undefined_culprit="_SetOperation")
+        return
+    if spec["k"] != "sel":
+        raise Unreadable("statement kind %s" % spec["k"])
+    # ---- SELECT: clause segments
+    plan = [("select", "SELECT "), ("from", " FROM ")]
+    for _ in spec.get("joins", []):
+        plan += [("join", " JOIN "), ("on", " ON ")]
+    if spec.get("where") is not None:
+        plan.append(("where", " WHERE "))
+    if spec.get("groupby"):
+        plan.append(("groupby", " GROUP BY "))
+    if spec.get("having") is not None:
+        plan.append(("having", " HAVING "))
+    if spec.get("orderby"):
+        plan.append(("orderby", " ORDER BY "))
+    pos, marks = 0, []
+    for name, kw in plan:
+        i = (0 if text.startswith(kw) else -1) if name == "select" else find_top(text, kw, pos)
+        if i == -1:
+            raise Unreadable("clause %s not found in %r" % (kw, text[:100]))
+        marks.append((name, i, i + len(kw)))
+        pos = i + len(kw)
+    segs = {}
+    for k_, (name, i, j) in enumerate(marks):
+        end = marks[k_ + 1][1] if k_ + 1 < len(marks) else len(text)
+        segs.setdefault(name, []).append(text[j:end])
+    nested_env = dict(env, top=False)
+    if spec["cls"] in NO_GROUP_ALIAS and env["group_ref"] is True:
+        nested_env["group_ref"] = None          # an Oracle/MSSQL builder inside another dialect: either rendering is accepted
+    here_group = nested_env["group_ref"]
+
+    def sub(qspec, seg):
+        inner, _rest = strip_parens(seg[seg.index("("):]) if not seg.startswith("(") else strip_parens(seg)
+        judge_query(qspec, inner, nested_env, out)
+
+    # select list
+    sel_parts = split_top(segs["select"][0])
+    items = spec.get("selects", [])
+    if len(sel_parts) != len(items):
+        raise Unreadable("select list has %d items, expected %d" % (len(sel_parts), len(items)))
+    sel_terms = [(i[1], seg) for i, seg in zip(items, sel_parts) if i[0] == "t"]
+    names = {alias_of(t) for t, _ in sel_terms if alias_of(t)}
+    names |= {i[1].get("alias") for i in items if i[0] == "sub" and i[1].get("alias")}
+    defs = {}
+    for t, seg in sel_terms:
+        a = alias_of(t)
+        if a and SENT_RE.fullmatch(a):
+            if any(o[1] == len(seg) for o in occurrences(seg, a)):
+                defs[a] = True
+            defs.setdefault("#cls:" + a, owner_name(bld(t, memo)))
+    for it, seg in zip(items, sel_parts):
+        if it[0] == "t":
+            out += judge_element(it[1], seg, "select", env["conv"], memo, names, False, defs)
+        elif it[0] == "sub":
+            sub(it[1], seg)
+    # sources
+    fparts = split_top(segs["from"][0])
+    if len(fparts) != len(spec.get("from", [])):
+        raise Unreadable("FROM has %d sources, expected %d" % (len(fparts), len(spec.get("from", []))))
+    for src, seg in zip(spec.get("from", []), fparts):
+        if src[0] == "q":
+            sub(src[1], seg)
+    for (how, src, cond), jseg, oseg in zip(spec.get("joins", []), segs.get("join", []), segs.get("on", [])):
+        if src[0] == "q":
+            sub(src[1], jseg)
+        if cond[0] == "on" and cond[1][0] == "t":
+            out += judge_element(cond[1][1], oseg, "non-select", env["conv"], memo, names, False, defs)
+    for clause in ("where", "having"):
+        it = spec.get(clause)
+        if it is None:
+            continue
+        seg = segs[clause][0]
+        if it[0] == "t":
+            out += judge_element(it[1], seg, "non-select", env["conv"], memo, names, False, defs)
+        elif it[0] == "in":
+            sub(it[2], seg)
+        elif it[0] == "exists":
+            sub(it[1], seg)
+    if spec.get("groupby"):
+        parts = split_top(segs["groupby"][0])
+        if len(parts) != len(spec["groupby"]):
+            raise Unreadable("GROUP BY has %d elements" % len(parts))
+        for it, seg in zip(spec["groupby"], parts):
+            if it[0] == "t":
+                out += judge_element(it[1], seg, "groupby", env["conv"], memo, names, here_group, defs)
+    if spec.get("orderby"):
+        parts = split_top(segs["orderby"][0])
+        if len(parts) != len(spec["orderby"]):
+            raise Unreadable("ORDER BY has %d elements" % len(parts))
+        for (it, d), seg in zip(spec["orderby"], parts):
+            if d and seg.endswith(" " + d.upper()):
+                seg = seg[:-(len(d) + 1)]
+            if it[0] == "t":
+                out += judge_element(it[1], seg, "orderby", env["conv"], memo, names, True, defs)
+
+
+def oracle_query(case, text):
+    spec = case["q"]
+    rc = root_cls(spec)
+    env = {"conv": (SPEC_QUOTE.get(rc, '"'), SPEC_AS.get(rc, False)), "group_ref": rc not in NO_GROUP_ALIAS, "top": True}
+    out = []
+    try:
+        judge_query(spec, text, env, out)
+    except Unreadable as e:
+        return [{"signature": ["C13", rc, "statement", "unreadable"], "what": "%s (%r)" % (e, text[:200])}]
+    uniq, res = set(), []
+    for v in out:
+        k_ = tuple(v["signature"])
+        if k_ not in uniq:
+            uniq.add(k_)
+            res.append(v)
+    return res
+
+
 def oracle(case, outcome):
     text = outcome.get("text") or ""
     if text.startswith("!") or text == "":
         return []
     memo = {}
+    if case["kind"] == "q":
+        return oracle_query(case, text)
     if case["kind"] == "term":
         c = case["c"]
         conv = ((c.get("aq") or c.get("q") or ""), bool(c.get("askw")))
@@ -1035,6 +1244,140 @@ def gen_malformed(rng, tier):
     return base
 
 
+# ---- nested statements / set operations (specs of harness/queries_family.py, rendered by the shared coq/Query.v) ----
+ALL_CLS = [py for _, py in CLASSES]
+INNER_CLS = ["Query", "Query", "Query", "OracleQuery", "MSSQLQuery", "SnowflakeQuery", "PostgreSQLQuery", "ClickHouseQuery",
+             "MySQLQuery", "SQLLiteQuery", "VerticaQuery", "RedshiftQuery"]
+
+
+class NG:
+    """nested SELECTs with aliased select items, GROUP BY / ORDER BY over them at every level, sub-queries of another class
+    in FROM / JOIN / select list / IN / EXISTS, set operations with branch-specific aliases and a chain ORDER BY"""
+
+    def __init__(self, rng, max_depth=2):
+        self.r = rng
+        self.max_depth = max_depth
+        self.n = 0
+
+    def fresh(self):
+        self.n += 1
+        return "zq%d" % self.n
+
+    def fld(self):
+        return F(self.r.choice(tf.NAMES))
+
+    def obj(self, alias, simple=False):
+        r = self.r
+        k = r.choice(["field", "field", "arith", "func", "sum", "case"] if not simple else ["field", "arith", "sum"])
+        if k == "field":
+            t = self.fld()
+        elif k == "arith":
+            inner = self.fld() if r.random() < 0.7 else with_alias(self.fld(), self.fresh())
+            t = ["arith", r.choice(["add", "sub", "mul"]), inner, I(r.choice([1, 2, 10])), None]
+        elif k == "func":
+            t = ["func", r.choice(["ABS", "COALESCE", "F"]), [self.fld()], None]
+        elif k == "sum":
+            t = ["func", r.choice(["SUM", "MAX", "COUNT"]), [self.fld()], None]
+        else:
+            t = ["case", [[["basic", "gt", self.fld(), I(0), None], self.fld()]], I(0) if r.random() < 0.5 else None, None]
+        return with_alias(t, alias)
+
+    def inner_cls(self, outer):
+        return outer if self.r.random() < 0.35 else self.r.choice(INNER_CLS)
+
+    def source(self, cls, depth):
+        r = self.r
+        if depth < self.max_depth and r.random() < 0.45:
+            if r.random() < 0.12:
+                q = self.setop(self.inner_cls(cls), depth + 1, order=False)
+                q["alias"] = r.choice(["sub1", "sub2", "z"])   # an un-aliased set operation as JOIN source is given the alias
+                #                                                 "_table_name" by pypika, which the shared Query.v does not model
+            else:
+                q = self.select(self.inner_cls(cls), depth + 1)
+                if r.random() < 0.6:
+                    q["alias"] = r.choice(["sub1", "sub2", "z"])
+            return ["q", q]
+        return ["t", [r.choice(["t", "u", "orders"]), [], None]]
+
+    def select(self, cls, depth, nsel=None, names=None, tail=True):
+        r = self.r
+        names = names or TOP_NAMES
+        q = {"k": "sel", "cls": cls, "from": [self.source(cls, depth)], "joins": []}
+        if r.random() < 0.25:
+            q["joins"].append(["inner", self.source(cls, depth), ["on", ["t", ["basic", "eq", F("a"), F("b"), None]]]])
+        items = []
+        for _ in range(nsel or r.choice([1, 2, 2, 3])):
+            if nsel is None and depth < self.max_depth and r.random() < 0.12:
+                sq = self.select(self.inner_cls(cls), depth + 1, nsel=1, tail=False)
+                if r.random() < 0.6:
+                    sq["alias"] = r.choice(["sa", "sb"])
+                items.append(["sub", sq])
+            else:
+                items.append(["t", self.obj(r.choice(names) if r.random() < 0.9 else None)])
+        q["selects"] = items
+        terms = [i for i in items if i[0] == "t"]
+
+        def element():
+            x = r.random()
+            if terms and x < 0.55:
+                return r.choice(terms)
+            if x < 0.75:
+                return ["t", self.obj(r.choice(names), simple=True)]
+            if x < 0.9:
+                return ["t", self.obj("zqU%d" % r.randrange(3), simple=True)]
+            return ["t", self.fld()]
+        x = r.random()
+        if x < 0.3 and terms:
+            q["where"] = ["t", ["basic", "gt", r.choice(terms)[1], I(0), None]]
+        elif x < 0.45 and depth < self.max_depth:
+            q["where"] = ["in", self.fld(), self.select(self.inner_cls(cls), depth + 1, nsel=1, tail=False), r.random() < 0.3]
+        elif x < 0.52 and depth < self.max_depth:
+            q["where"] = ["exists", self.select(self.inner_cls(cls), depth + 1, nsel=1, tail=False), r.random() < 0.3]
+        if r.random() < 0.55:
+            q["groupby"] = [element() for _ in range(r.choice([1, 1, 2]))]
+            if terms and r.random() < 0.3:
+                q["having"] = ["t", ["basic", "gt", r.choice(terms)[1], I(1), None]]
+        if tail and r.random() < 0.5:
+            q["orderby"] = [[element(), r.choice([None, "asc", "desc"])] for _ in range(r.choice([1, 1, 2]))]
+        return q
+
+    def setop(self, cls, depth=0, order=True):
+        r = self.r
+        k = r.choice([1, 2, 2])
+        same = r.random() < 0.7
+        base = self.select(cls, depth + 1, nsel=k, names=["zqA", "zqB"], tail=False)
+        ops, others = [], []
+        for _ in range(r.choice([1, 1, 2])):
+            b = self.select(cls if same else r.choice(ALL_CLS), depth + 1, nsel=k,
+                            names=r.choice([["zqA", "zqB"], ["zqC", "zqD"], ["zqB", "zqC"]]), tail=False)
+            others.append(b)
+            ops.append([r.choice(["union", "union", "union_all", "intersect", "except_of", "minus"]), b])
+        q = {"k": "set", "base": base, "ops": ops}
+        if order and r.random() < 0.8:
+            pool = [i[1] for i in base["selects"] if i[0] == "t"]
+            pool2 = [i[1] for b in others for i in b["selects"] if i[0] == "t"]
+            ob = []
+            for _ in range(r.choice([1, 1, 2])):
+                x = r.random()
+                if x < 0.35 and pool:
+                    t = r.choice(pool)
+                elif x < 0.7 and pool2:
+                    t = r.choice(pool2)
+                elif x < 0.85:
+                    t = self.obj(r.choice(["zqA", "zqC", "zqU1"]), simple=True)
+                else:
+                    t = self.fld()
+                ob.append([t, r.choice([None, "asc", "desc"])])
+            q["orderby"] = ob
+        return q
+
+
+def gen_nested(rng, tier):
+    g = NG(rng, max_depth=2 if tier == "quick" or rng.random() < 0.7 else 3)
+    cls = rng.choice(ALL_CLS + ["OracleQuery", "MSSQLQuery", "SnowflakeQuery", "ClickHouseQuery", "PostgreSQLQuery"])
+    return {"kind": "q", "q": g.setop(cls) if rng.random() < 0.25 else g.select(cls, 0)}
+
+
 def gen_cases(rng, tier):
     n = 460 if tier == "quick" else 6000
     out = []
@@ -1048,6 +1391,8 @@ def gen_cases(rng, tier):
             out.append(gen_ins(rng, tier))
         else:
             out.append(gen_malformed(rng, tier))
+    for _ in range(300 if tier == "quick" else 3000):
+        out.append(gen_nested(rng, tier))
     return out
 
 
@@ -1105,6 +1450,38 @@ def grid_cases(classes=("Query",)):
     return out
 
 
+def nested_grid(outers=None, inners=None):
+    """the nested shapes the property quantifies over, outer class x inner class: a grouped/ordered SELECT with aliased
+    items embedded in FROM / JOIN / select list / IN, and set operations ordered by base / non-base / un-selected aliases"""
+    outers = outers or ALL_CLS
+    inners = inners or ["Query", "OracleQuery", "SnowflakeQuery"]
+    x, sm = F("a", "zqA"), ["func", "SUM", [F("b")], "zqB"]
+    out = []
+
+    def inner(cls, alias=None, nsel=2):
+        q = {"k": "sel", "cls": cls, "from": [["t", ["t", [], None]]], "joins": [],
+             "selects": [["t", x], ["t", sm]][:nsel], "groupby": [["t", x]], "orderby": [[["t", sm] if nsel > 1 else ["t", x], None]]}
+        if alias:
+            q["alias"] = alias
+        return q
+    for oc in outers:
+        for ic in inners:
+            out.append({"kind": "q", "q": {"k": "sel", "cls": oc, "from": [["q", inner(ic, "sub1")]], "joins": [],
+                                           "selects": [["t", F("a", "zqC")]], "groupby": [["t", F("a", "zqC")]]}})
+            out.append({"kind": "q", "q": {"k": "sel", "cls": oc, "from": [["t", ["u", [], None]]],
+                                           "joins": [["inner", ["q", inner(ic, "sub1")], ["on", ["t", ["basic", "eq", F("a"), F("b"), None]]]]],
+                                           "selects": [["t", F("c", "zqC")], ["sub", inner(ic, "sa", nsel=1)]],
+                                           "where": ["in", F("a"), inner(ic, None, nsel=1), False]}})
+        other = ["func", "UPPER", [F("b")], "zqC"]
+        b1 = {"k": "sel", "cls": oc, "from": [["t", ["t", [], None]]], "joins": [], "selects": [["t", x], ["t", F("n")]]}
+        b2 = {"k": "sel", "cls": oc, "from": [["t", ["u", [], None]]], "joins": [], "selects": [["t", other], ["t", F("n")]]}
+        for ob in ([[x, None]], [[other, "desc"]], [[F("a", "zqU1"), None]], [[F("z", "zqA"), "asc"], [other, None]]):
+            out.append({"kind": "q", "q": {"k": "set", "base": b1, "ops": [["union", b2]], "orderby": ob}})
+        out.append({"kind": "q", "q": {"k": "set", "base": b1, "ops": [["union_all", b2], ["intersect", dict(b2, selects=[["t", F("c", "zqD")], ["t", F("n")]])]],
+                                       "orderby": [[F("c", "zqD"), None]]}})
+    return out
+
+
 def corpus():
     sc = dict(tf.STR_CTX)
     w_null = ["isnull", F("a"), "n"]
@@ -1126,7 +1503,7 @@ def corpus():
         proved.append(stmt(cls, sel=[ex_m, ex_s], on=["basic", "eq", F("a"), F("b"), None],
                            where=["basic", "gt", ex_m, I(0), None], group=[ex_m], having=["basic", "gt", ex_s, I(1), None],
                            order=[[ex_m, "desc"], [ex_s, None], [F("z", "zz"), None]]))
-    out = proved + grid_cases(("Query",))
+    out = proved + grid_cases(("Query",)) + nested_grid()
     # alias quoting of every consuming kind in the classes whose convention differs (sentinel names)
     for cls in ("SnowflakeQuery", "PostgreSQLQuery", "OracleQuery", "MSSQLQuery", "ClickHouseQuery", "MySQLQuery"):
         for k in CONSUMING + ["an", "isnull", "cplx", "nega"]:
@@ -1143,8 +1520,39 @@ def corpus():
 # ----------------------------------------------------------------------------------------------
 # evidence helpers / search
 # ----------------------------------------------------------------------------------------------
+def _q_elements(q, depth=0):
+    if q["k"] == "set":
+        out = [("set-orderby", t) for t, _ in q.get("orderby", [])]
+        for b in [q["base"]] + [b for _, b in q["ops"]]:
+            out += _q_elements(b, depth + 1)
+        return out
+    out = []
+    tag = "@depth%d" % min(depth, 3)
+    for i in q.get("selects", []):
+        if i[0] == "t":
+            out.append(("select" + tag, i[1]))
+        elif i[0] == "sub":
+            out += _q_elements(i[1], depth + 1)
+    for src in q.get("from", []) + [j[1] for j in q.get("joins", [])]:
+        if src[0] == "q":
+            out += _q_elements(src[1], depth + 1)
+    w = q.get("where")
+    if w is not None:
+        if w[0] == "t":
+            out.append(("where" + tag, w[1]))
+        elif w[0] == "in":
+            out += _q_elements(w[2], depth + 1)
+        elif w[0] == "exists":
+            out += _q_elements(w[1], depth + 1)
+    out += [("groupby" + tag, g[1]) for g in q.get("groupby", []) if g[0] == "t"]
+    out += [("orderby" + tag, o[1]) for o, _ in q.get("orderby", []) if o[0] == "t"]
+    return out
+
+
 def _elements(case):
     """(clause, spec) of every top-level element"""
+    if case["kind"] == "q":
+        return _q_elements(case["q"])
     if case["kind"] == "term":
         return [("term", case["t"])]
     if case["kind"] == "ins":
@@ -1162,7 +1570,7 @@ def nontrivial_key(case):
     hit = False
     for clause, spec in _elements(case):
         for n, parent in nodes(spec):
-            if alias_of(n) and (parent is not None or clause not in ("select", "term")):
+            if alias_of(n) and (parent is not None or not (clause.startswith("select") or clause == "term")):
                 hit = True
     return json.dumps(case, sort_keys=True) if hit else None
 
@@ -1174,6 +1582,10 @@ def histogram(cases):
         h[k] = h.get(k, 0) + n
     for c in cases:
         inc("kind=" + c["kind"])
+        if c["kind"] == "q":
+            from harness import queries_family as qf
+            for k_, v_ in qf.shape(c["q"]).items():
+                inc("nested:" + k_, v_)
         if "cls" in c:
             inc("class=" + c["cls"])
         for clause, spec in _elements(c):
@@ -1199,12 +1611,16 @@ def histogram(cases):
 
 def targeted_search(rng, broken, mism_cases):
     """every aliasable kind x every position x all ten classes, then a denser random batch"""
-    out = grid_cases([py for _, py in CLASSES])
+    out = grid_cases([py for _, py in CLASSES]) + nested_grid(inners=ALL_CLS)
     for c in mism_cases:
+        if c["kind"] == "q":
+            continue
         for clause, spec in _elements(c):
             for n, _ in nodes(spec):
                 out.append({"kind": "term", "t": n, "c": dict(tf.STR_CTX)})
                 out.append({"kind": "term", "t": n, "c": dict(tf.STR_CTX, wa=True)})
     for _ in range(1500):
         out.append(gen_stmt(rng, "quick"))
+    for _ in range(1500):
+        out.append(gen_nested(rng, "quick"))
     return out
